@@ -125,7 +125,7 @@ fn run_case(ctx: &Ctx, fails: &[bool], forced: Option<&[usize]>, rng: &mut Rng, 
                 loop {
                     let st = sched.states();
                     if woken.iter().all(|i| matches!(st[*i], TState::Parked(_) | TState::Finished)) { break; }
-                    if t0.elapsed() > Duration::from_secs(20) { break; }
+                    if t0.elapsed() > Duration::from_secs(4) { break; }
                     std::thread::sleep(Duration::from_millis(1));
                 }
                 let st = sched.states();
@@ -258,6 +258,10 @@ pub fn run(ctx: &Ctx) -> Report {
         if fails.iter().any(|f| *f) { rep.count("with_write_failure"); }
         if rep.evaluations % 67 == 0 { rep.sample(format!("{case} -> results {:?} log {:?}", o.results, o.log)); }
         judge(&mut rep, &case, &fails, &o);
+        if rep.n_disagreements >= 12 {
+            rep.notes.push(format!("stopped after {} cases: the model and the code disagree on {} of them (every further case costs watchdog time)", rep.evaluations, rep.n_disagreements));
+            break;
+        }
     }
     rep
 }
